@@ -185,6 +185,18 @@ type GbCase struct {
 	LenLie   int `json:"len_lie"`
 	Mut      Mut `json:"mut"`
 	Slices   []int `json:"slices,omitempty"`
+	// Flood (after the packets of the program stream): a sequence-number gap, many packets cached behind the gap,
+	// then the missing packet, then further packets.  Exercises the reorder list up to and beyond its capacity (1024).
+	Flood *GbFlood `json:"flood,omitempty"`
+}
+
+// GbFlood: packet F (valid), then Cached valid packets F+2 ... F+1+Cached (held back: F+1 is missing), then F+1
+// itself (Gap: its payload — "garbage" = unknown start code, "valid", "cut" = start code only, "none" = never sent),
+// then one packet per entry of Then at sequence number F+Then[i].
+type GbFlood struct {
+	Cached int    `json:"cached"`
+	Gap    string `json:"gap"`
+	Then   []int  `json:"then,omitempty"`
 }
 
 func (c *GbCase) ps() []byte {
@@ -223,6 +235,28 @@ func (c *GbCase) packets() [][]byte {
 		r.Payload = Blob{Hex: fmt.Sprintf("%x", p)}
 		out = append(out, r.Bytes())
 		seq++
+	}
+	if f := c.Flood; f != nil {
+		valid := psref.PackHeader(90000, 0, 50000, 0)
+		pk := func(s uint16, payload []byte) []byte {
+			return RtpSpec{Ver: 2, PT: 96, Seq: s, TS: 200000, SSRC: 0x28181, CutTo: -1, Payload: Blob{Hex: fmt.Sprintf("%x", payload)}}.Bytes()
+		}
+		first := seq // continues the program stream's packets
+		out = append(out, pk(first, valid))
+		for i := 0; i < f.Cached; i++ {
+			out = append(out, pk(first+2+uint16(i), valid))
+		}
+		switch f.Gap {
+		case "garbage":
+			out = append(out, pk(first+1, []byte{9, 9, 9, 9, 9, 9, 9, 9}))
+		case "valid":
+			out = append(out, pk(first+1, valid))
+		case "cut":
+			out = append(out, pk(first+1, []byte{0, 0, 1, 0xe0}))
+		}
+		for _, d := range f.Then {
+			out = append(out, pk(first+uint16(d), valid))
+		}
 	}
 	return out
 }
@@ -367,6 +401,16 @@ func genGbCase(tcp bool) func(t *rapid.T) GbCase {
 			h := genRtp(t, trackInfo{codec: "raw", pt: 96}, st)
 			c.Hdr = &h
 			c.HdrAt = rapid.IntRange(0, 8).Draw(t, "hdrAt")
+		}
+		if rapid.IntRange(0, 5).Draw(t, "flood") == 0 {
+			f := &GbFlood{}
+			f.Cached = rapid.SampledFrom([]int{1, 2, 100, 1021, 1022, 1023, 1024, 1025, 1100}).Draw(t, "floodCached")
+			f.Gap = rapid.SampledFrom([]string{"garbage", "garbage", "garbage", "valid", "cut", "none"}).Draw(t, "floodGap")
+			n := rapid.IntRange(0, 4).Draw(t, "floodThen")
+			for i := 0; i < n; i++ {
+				f.Then = append(f.Then, rapid.SampledFrom([]int{0, 1, 2, 3, 1100, 1101, 1102, 5000, 5002, 5003, 32768, 40000, 65535}).Draw(t, "floodSeq"))
+			}
+			c.Flood = f
 		}
 		if tcp {
 			if rapid.IntRange(0, 3).Draw(t, "lenLie") == 0 {
@@ -539,6 +583,21 @@ func classifyGb(c GbCase) (bool, []string) {
 	}
 	if len(c.SeqOps) > 0 {
 		labels = append(labels, "rtp:seq-disorder")
+	}
+	if f := c.Flood; f != nil {
+		hostile = true
+		switch {
+		case f.Cached >= 1023:
+			labels = append(labels, "flood:gap+cached>=capacity-1")
+		case f.Cached >= 100:
+			labels = append(labels, "flood:gap+cached-100..1022")
+		default:
+			labels = append(labels, "flood:gap+cached-few")
+		}
+		labels = append(labels, "flood:gap-packet-"+f.Gap)
+		if len(f.Then) > 0 {
+			labels = append(labels, "flood:packets-after")
+		}
 	}
 	if c.Hdr != nil {
 		for _, l := range c.Hdr.labels()[2:] {
